@@ -162,7 +162,11 @@ def run(module, cfg, name=None, workers=16, timeout=600, simulate=None, depth=No
     if m:
         r.depth = int(m.group(1))
     r.violated = _RE_INV.findall(out) + _RE_ACT.findall(out)
-    if "Temporal properties were violated" in out:
+    mt = re.search(r"Temporal propert(?:y|ies) (.*?) (?:was|were) violated", out)
+    if mt:
+        r.violated += [x for x in re.split(r",\s*(?:and\s+)?|\s+and\s+", mt.group(1)) if x]
+        r.error_kind = "temporal"
+    elif "Temporal properties were violated" in out:
         r.violated.append("<temporal>")
         r.error_kind = "temporal"
     elif _RE_INV.search(out):
